@@ -70,7 +70,7 @@ func init() {
 	mutant("release-while-handler-runs", "abandoned-bookkeeping", "serverConn.go", "		if strm.handlerRunning {\n			strm.abandoned = true", "		if strm.handlerRunning && sc.debug {\n			strm.abandoned = true")
 	mutant("no-limit-before-newstream", "stream-creation-guards", "serverConn.go", "if openStreams >= int(sc.st.maxStreams) || wasClosing {", "if wasClosing {")
 	mutant("create-while-closing", "stream-creation-guards", "serverConn.go", "if openStreams >= int(sc.st.maxStreams) || wasClosing {", "if openStreams >= int(sc.st.maxStreams) {")
-	mutant("goaway-no-closing-state", "goaway-bookkeeping", "serverConn.go", "	atomic.StoreInt32((*int32)(&sc.state), int32(connStateClosed))\n\n	if sc.debug {\n		sc.logger.Printf(\n			\"%s: GoAway", "	if strm != 0 {\n		atomic.StoreInt32((*int32)(&sc.state), int32(connStateClosed))\n	}\n\n	if sc.debug {\n		sc.logger.Printf(\n			\"%s: GoAway")
+	mutant("goaway-no-closing-state", "goaway-bookkeeping", "serverConn.go", "	atomic.StoreInt32((*int32)(&sc.state), int32(connStateClosed))\n\n	last := atomic.LoadUint32(&sc.lastID)", "	if strm != 0 {\n		atomic.StoreInt32((*int32)(&sc.state), int32(connStateClosed))\n	}\n\n	last := atomic.LoadUint32(&sc.lastID)")
 	mutant("body-unbounded", "buffer-append-bounded", "serverConn.go", "		if sc.maxRequestBodySize > 0 && strm.recvBody > sc.maxRequestBodySize {\n			return NewResetStreamError(EnhanceYourCalm, \"request body is too large\")\n		}\n\n		strm.ctx.Request.AppendBody(data)", "		strm.ctx.Request.AppendBody(data)")
 	mutant("ring-never-evicts", "closed-ring-bounded", "serverConn.go", "			delete(closedStrms, closedRing[closedOldest])\n", "")
 	mutant("uppercase-check-dropped", "validators-dominate-accept", "serverConn.go", "		if hasUpperCase(k) {\n			return sc.rejectBlock(strm, fr, b, NewResetStreamError(ProtocolError, \"header field name contains uppercase characters\"))\n		}\n", "")
@@ -162,7 +162,7 @@ func init() {
 
 func init() {
 	mutant("handlestate-before-handleframe", "frame-step-order", "serverConn.go", "			handleState(fr, strm)\n\n			// Hand the request to the handler", "			// Hand the request to the handler")
-	mutant("data-before-headers", "frame-step-order", "serverConn.go", "	fasthttpResponseHeaders(h, &sc.enc, &ctx.Response)\n\n	sc.write(fr)\n\n	if !hasBody {", "	fasthttpResponseHeaders(h, &sc.enc, &ctx.Response)\n\n	if !hasBody {\n		sc.write(fr)")
+	mutant("data-before-headers", "frame-step-order", "serverConn.go", "	fasthttpResponseHeaders(h, &sc.enc, &ctx.Response)\n\n	sc.writeHeaderBlock(fr, h)\n\n	if !hasBody {", "	fasthttpResponseHeaders(h, &sc.enc, &ctx.Response)\n\n	if !hasBody {\n		sc.writeHeaderBlock(fr, h)")
 }
 
 func init() {
@@ -520,24 +520,24 @@ func init() {
 func init() {
 	mutant("frame-error-branch-inverted", "error-polarity", "serverConn.go", "			if err := sc.handleFrame(strm, fr); err != nil {", "			if err := sc.handleFrame(strm, fr); err == nil {")
 	mutant("read-error-branch-inverted", "error-polarity", "serverConn.go", "		fr, err = ReadFrameFromWithSize(sc.br, sc.st.frameSize)\n		if err != nil {", "		fr, err = ReadFrameFromWithSize(sc.br, sc.st.frameSize)\n		if err == nil {")
-	mutant("flush-only-after-a-failed-write", "error-polarity", "conn.go", "	_, err := fr.WriteTo(c.bw)\n	if err == nil {\n		err = c.bw.Flush()\n	}\n\n	c.bwLck.Unlock()\n\n	ReleaseHeaderField(hf)", "	_, err := fr.WriteTo(c.bw)\n	if err != nil {\n		err = c.bw.Flush()\n	}\n\n	c.bwLck.Unlock()\n\n	ReleaseHeaderField(hf)")
+	mutant("flush-only-after-a-failed-write", "error-polarity", "conn.go", "	err := c.writeHeaderBlock(fr, h)\n	if err == nil {\n		err = c.bw.Flush()\n	}\n\n	c.bwLck.Unlock()\n\n	ReleaseHeaderField(hf)", "	err := c.writeHeaderBlock(fr, h)\n	if err != nil {\n		err = c.bw.Flush()\n	}\n\n	c.bwLck.Unlock()\n\n	ReleaseHeaderField(hf)")
 	mutant("decode-error-branch-inverted", "error-polarity", "serverConn.go", "		b, err = sc.dec.nextField(hf, strm.blockFields == 0, strm.blockFields, b)\n		if err != nil {", "		b, err = sc.dec.nextField(hf, strm.blockFields == 0, strm.blockFields, b)\n		if err == nil {")
 	mutant("client-handshake-error-ignored", "error-polarity", "conn.go", "	if err = Handshake(true, c.bw, &c.current, c.maxWindow-65535); err != nil {", "	if err = Handshake(true, c.bw, &c.current, c.maxWindow-65535); err == nil {")
 }
 
 func init() {
 	mutant("refused-stream-not-told", "server-loop-shape", "serverConn.go", "					sc.writeReset(fr.Stream(), RefusedStreamError)\n", "")
-	mutant("highest-accepted-id-not-recorded", "server-loop-shape", "serverConn.go", "					sc.lastID = fr.Stream()\n", "")
+	mutant("highest-accepted-id-not-recorded", "server-loop-shape", "serverConn.go", "					openStreams++\n					atomic.StoreUint32(&sc.lastID, fr.Stream())\n", "					openStreams++\n")
 	mutant("closing-test-disjunction", "server-loop-shape", "serverConn.go", "			if wasClosing && canCloseAfterGoAway() {", "			if wasClosing || canCloseAfterGoAway() {")
 	mutant("length-mismatch-needs-no-declaration", "server-loop-shape", "serverConn.go", "				if strm.hasContentLength && strm.recvBody != strm.contentLength {", "				if strm.hasContentLength || strm.recvBody != strm.contentLength {")
-	mutant("goaway-reference-not-recorded", "server-loop-shape", "serverConn.go", "		atomic.StoreUint32(&sc.closeRef, sc.lastID)\n", "")
+	mutant("goaway-reference-not-recorded", "server-loop-shape", "serverConn.go", "		atomic.StoreUint32(&sc.closeRef, last)\n", "")
 	mutant("stream-error-not-answered", "server-loop-shape", "serverConn.go", "		sc.resetStream(strm, streamErr.Code())\n", "")
 	mutant("incomplete-block-counts-as-finished", "server-loop-shape", "serverConn.go", "			strm.headersFinished = len(strm.previousHeaderBytes) == 0", "			strm.headersFinished = len(strm.previousHeaderBytes) >= 0")
 	mutant("pseudo-header-presence-conjunction", "server-loop-shape", "serverConn.go", "	if !strm.pseudoMethod || !strm.pseudoScheme || !strm.pseudoPath {", "	if !strm.pseudoMethod && !strm.pseudoScheme || !strm.pseudoPath {")
 	mutant("zero-window-increment-accepted", "server-loop-shape", "serverConn.go", "		if win == 0 {\n			return NewGoAwayError(ProtocolError, \"window increment of 0\")\n		}\n", "")
 	mutant("content-length-marker-unset", "server-loop-shape", "serverConn.go", "			strm.hasContentLength = true\n", "")
 	mutant("te-rule-disjunction", "server-loop-shape", "serverConn.go", "		if bytes.Equal(k, StringTE) && !bytes.Equal(v, StringTrailers) {", "		if bytes.Equal(k, StringTE) || !bytes.Equal(v, StringTrailers) {")
-	mutant("response-headers-without-end-headers", "server-loop-shape", "serverConn.go", "	h.SetEndHeaders(true)\n	h.SetEndStream(!hasBody)", "	h.SetEndStream(!hasBody)")
+	mutant("response-headers-without-end-headers", "server-loop-shape", "serverConn.go", "	if len(block) <= maxDataFrameSize {\n		h.SetEndHeaders(true)\n\n		sc.write(fr)", "	if len(block) <= maxDataFrameSize {\n		sc.write(fr)")
 	mutant("buffered-body-not-registered", "server-loop-shape", "serverConn.go", "		strm.pendingData = ctx.Response.Body()\n", "")
 }
 
@@ -657,4 +657,27 @@ func init() {
 	mutant("connection-error-leaves-writes-unbounded", "server-teardown-bounded", "serverConn.go", "	if code != NoError {\n		sc.limitWrites(writeDrainTimeout)\n	}\n", "")
 	mutant("write-limit-not-applied-to-the-write-in-progress", "server-teardown-bounded", "serverConn.go", "	if sc.c != nil {\n		_ = sc.c.SetWriteDeadline(time.Now().Add(d))\n	}\n", "")
 	mutant("write-limit-not-applied-to-later-writes", "server-teardown-bounded", "serverConn.go", "		if d := sc.writeLimit.Load(); d > 0 {\n			_ = sc.c.SetWriteDeadline(time.Now().Add(time.Duration(d)))\n		}\n", "")
+}
+
+func init() {
+	mutant("goaway-reads-the-id-before-it-marks", "goaway-bookkeeping", "serverConn.go", "	atomic.StoreInt32((*int32)(&sc.state), int32(connStateClosed))\n\n	last := atomic.LoadUint32(&sc.lastID)\n", "	last := atomic.LoadUint32(&sc.lastID)\n\n	atomic.StoreInt32((*int32)(&sc.state), int32(connStateClosed))\n")
+	mutant("goaway-names-the-offending-stream-again", "goaway-bookkeeping", "serverConn.go", "	ga.SetStream(last)", "	ga.SetStream(strm)")
+	mutant("accepted-id-not-published-before-the-last-look", "goaway-bookkeeping", "serverConn.go", "					atomic.StoreUint32(&sc.lastID, fr.Stream())\n\n					wasClosing = isClosing()", "					wasClosing = isClosing()")
+	mutant("last-look-at-the-closing-mark-dropped", "goaway-bookkeeping", "serverConn.go", "					atomic.StoreUint32(&sc.lastID, fr.Stream())\n\n					wasClosing = isClosing()", "					atomic.StoreUint32(&sc.lastID, fr.Stream())")
+	mutant("highest-id-written-plainly", "access-discipline", "serverConn.go", "					openStreams++\n					atomic.StoreUint32(&sc.lastID, fr.Stream())", "					openStreams++\n					sc.lastID = fr.Stream()")
+	mutant("goaway-reads-the-id-plainly", "access-discipline", "serverConn.go", "	last := atomic.LoadUint32(&sc.lastID)", "	last := sc.lastID")
+	mutant("server-header-block-one-oversized-frame", "header-block-emitters", "serverConn.go", "	if len(block) <= maxDataFrameSize {\n		h.SetEndHeaders(true)", "	if len(block) <= maxDataFrameSize || !sc.debug {\n		h.SetEndHeaders(true)")
+	mutant("server-continuation-repeats-the-first-octets", "header-block-emitters", "serverConn.go", "	rest := append([]byte(nil), block[maxDataFrameSize:]...)", "	rest := append([]byte(nil), block...)")
+	allMutants = append(allMutants, Mutant{Name: "server-continuation-read-after-hand-over", Rule: "header-block-emitters", Subs: []Subst{
+		{File: "serverConn.go", Old: "		cfr.SetStream(id)", New: "		cfr.SetStream(fr.Stream())"},
+		{File: "serverConn.go", Old: "	id := fr.Stream()\n	rest := append([]byte(nil), block[maxDataFrameSize:]...)", New: "	rest := append([]byte(nil), block[maxDataFrameSize:]...)"},
+	}})
+	mutant("server-every-continuation-ends-the-block", "header-block-emitters", "serverConn.go", "		c.SetEndHeaders(len(rest) == 0)\n\n		cfr.SetBody(c)", "		c.SetEndHeaders(true)\n\n		cfr.SetBody(c)")
+	mutant("server-block-frames-queued-without-the-lock", "header-block-emitters", "serverConn.go", "	sc.queueLck.Lock()\n	defer sc.queueLck.Unlock()\n\n	sc.enqueue(fr)", "	sc.enqueue(fr)")
+	mutant("server-single-frames-queued-without-the-lock", "header-block-emitters", "serverConn.go", "	sc.queueLck.Lock()\n	sc.enqueue(fr)\n	sc.queueLck.Unlock()", "	sc.enqueue(fr)")
+	mutant("server-continuation-larger-than-the-bound", "header-block-emitters", "serverConn.go", "		if n > maxDataFrameSize {\n			n = maxDataFrameSize\n		}\n\n		cfr := AcquireFrameHeader()", "		cfr := AcquireFrameHeader()")
+	mutant("client-continuation-skips-octets", "header-block-emitters", "conn.go", "		cont.SetHeader(rest[:n])\n\n		rest = rest[n:]", "		cont.SetHeader(rest[:n])\n\n		rest = rest[step:]")
+	mutant("client-first-frame-keeps-end-headers", "header-block-emitters", "conn.go", "	h.SetHeaders(block[:step])\n	h.SetEndHeaders(false)", "	h.SetHeaders(block[:step])\n	h.SetEndHeaders(true)")
+	mutant("client-bound-ignores-the-servers-setting", "header-block-emitters", "conn.go", "func (c *Conn) writeHeaderBlock(fr *FrameHeader, h *Headers) error {\n	step := int(atomic.LoadUint32(&c.maxFrameSize))", "func (c *Conn) writeHeaderBlock(fr *FrameHeader, h *Headers) error {\n	step := int(maxFrameSize)")
+	mutant("client-header-block-written-outside-the-lock", "header-block-emitters", "conn.go", "	c.bwLck.Lock()\n\n	err := c.writeHeaderBlock(fr, h)\n	if err == nil {\n		err = c.bw.Flush()\n	}\n\n	c.bwLck.Unlock()", "	err := c.writeHeaderBlock(fr, h)\n\n	c.bwLck.Lock()\n\n	if err == nil {\n		err = c.bw.Flush()\n	}\n\n	c.bwLck.Unlock()")
 }
